@@ -10,6 +10,7 @@ import (
 	"crypto/sha256"
 	"encoding/binary"
 	"encoding/json"
+	"strconv"
 	"strings"
 )
 
@@ -49,11 +50,25 @@ var originNames = map[string][]string{
 	"inv_space":      {"bad name.example.org", "origin.example.org :8448"},
 	"inv_slash":      {"origin.example.org/x", "origin.example.org/:8448"},
 	"inv_bracket":    {"[2001:db8::7", "2001:db8::7]", "[2001:db8::7:8448"},
+	"inv_quote":      {"origin\".example.org", "origin.example.org\",key=\"ed25519:x"},
+	"inv_backslash":  {"origin\\.example.org", "origin.example.org\\"},
 	"inv_long":       {strings.Repeat("a123456789.", 23) + "abc", strings.Repeat("a123456789.", 23) + "abc:8448"},
 	"invalid":        {"origin_bad.example.org", "bad name.example.org", "[2001:db8::7", "origin.example.org:8448:1", "exämple.org", "origin.example.org/x"},
 }
 
-const otherOrigin = "other.example.net"
+const otherOriginName = "other.example.net"
+
+func pubOtherOf() ed25519.PublicKey { pub, _ := keyFrom("other"); return pub }
+
+// portVariant is the name with a port suffix added (or, if it has one, removed): a different server name that
+// coincides with the original up to the suffix.
+func portVariant(name string) string {
+	i := strings.LastIndex(name, ":")
+	if i > 0 && !strings.Contains(name[i:], "]") {
+		return name[:i]
+	}
+	return name + ":8448"
+}
 
 // mixedCase is the "mixed" spelling of a lower-case name: upper-case hex digits in an IPv6 literal,
 // alternating letter case in a DNS name (Origin.Example.ORG style names are spelled like this in the wild).
@@ -111,12 +126,22 @@ var uris = map[string][]string{
 	"emptyq":  {"/_matrix/federation/v1/version?", "/?"},
 	"dslash":  {"//_matrix//federation/v1/../x", "/_matrix/./federation//"},
 	"unicode": {"/_matrix/%E2%9C%93/x?y=%E2%9C%93&z=a+b", "/_matrix/federation/v1/user/@%C3%BC:example.org"},
-	"long":    {"/_matrix/federation/v1/send/" + strings.Repeat("a1", 600) + "?x=" + strings.Repeat("%41", 300)},
+	"long": {"/_matrix/federation/v1/send/" + strings.Repeat("a1", 600) + "?x=" + strings.Repeat("%41", 300),
+		"/_matrix/federation/v1/state_ids/" + strings.Repeat("%21r%2F", 1000) + "?event_id=" + strings.Repeat("%24e", 2000)},
 }
 
 // tamperURI returns a request URI textually different from u (and still a valid request target).
 func tamperURI(p *picker, u string) string {
-	switch p.n("uri2", 5) {
+	switch p.n("uri2", 6) {
+	case 5:
+		// an escaped slash unescaped (another path), or a plain slash escaped
+		if i := strings.Index(strings.ToUpper(u), "%2F"); i >= 0 {
+			return u[:i] + "/" + u[i+3:]
+		}
+		if i := strings.LastIndex(u, "/"); i > 0 && !strings.Contains(u[:i], "?") {
+			return u[:i] + "%2F" + u[i+1:]
+		}
+		return u + "%2F"
 	case 0:
 		if strings.Contains(u, "?") {
 			return u + "&x=1"
@@ -161,6 +186,21 @@ var bodiesObj = []string{
 	`{}`,
 	`{"z":1,"a":{"y":"2","b":[]},"m":"x"}`,
 }
+
+func init() {
+	// a body far larger than a usual transaction
+	var b strings.Builder
+	b.WriteString(`{"pdus":[`)
+	for i := 0; i < 700; i++ {
+		if i > 0 {
+			b.WriteByte(',')
+		}
+		b.WriteString(`{"type":"m.room.message","content":{"body":"` + strings.Repeat("x", 60) + `"},"depth":` + strconv.Itoa(i) + `}`)
+	}
+	b.WriteString(`],"origin":"origin.example.org"}`)
+	bodiesObj = append(bodiesObj, b.String())
+}
+
 var bodiesArr = []string{`[1,"two",{"three":3}]`, `[]`, `[[],{}]`}
 
 const bodyNonUTF8 = "{\"a\":\"\xff\xfe\"}"
